@@ -2063,6 +2063,13 @@ def val_method(it, v, name, args, kw, node):
             if r is None:
                 raise Fail('dict membership undecided')
             return K(r)
+        if name == '__getitem__':
+            return it.getitem(v, args[0], node)
+        if name == '__setitem__':
+            it.setitem(v, args[0], args[1], node)
+            return K(None)
+        if name == '__iter__':
+            return builtin(it, 'iter', [v], {}, node)
         raise Fail(f'dict method {name} is not modelled')
     if isinstance(v, ListV):
         if name == 'popleft':
@@ -2141,6 +2148,18 @@ def val_method(it, v, name, args, kw, node):
             raise RaiseEx('ValueError', 'list.remove(x): x not in list')
         if name in ('__len__',):
             return K(len(v.items))
+        if name == '__getitem__':
+            return it.getitem(v, args[0], node)
+        if name == '__setitem__':
+            it.setitem(v, args[0], args[1], node)
+            return K(None)
+        if name == '__iter__':
+            return builtin(it, 'iter', [v], {}, node)
+        if name == '__contains__':
+            r = it.contains(v, args[0])
+            if r is None:
+                raise Fail('list membership undecided')
+            return K(r)
         raise Fail(f'list/tuple method {name} is not modelled')
     if isinstance(v, SetV):
         if name == 'add':
